@@ -87,7 +87,10 @@ func SelectFilesMode(repo string, mode int) ([]string, error) {
 		if !strings.HasSuffix(p, ".go") || strings.HasSuffix(p, "_test.go") {
 			return nil
 		}
-		if filepath.Dir(p) == cacheDir || (wide && strings.HasPrefix(p, primDir)) || (mode >= 2 && (p == strobeFile || keccakFiles[p])) {
+		// mode 3: also the group arithmetic (curve/*.go, not its sub-packages): preemption between the statements of the
+		// scalar multiplications, table lookups and point operations.  The constant tables are data, not code.
+		inCurve := mode >= 3 && filepath.Dir(p) == filepath.Join(repo, "curve") && !strings.HasPrefix(filepath.Base(p), "constants")
+		if filepath.Dir(p) == cacheDir || (wide && strings.HasPrefix(p, primDir)) || (mode >= 2 && (p == strobeFile || keccakFiles[p])) || inCurve {
 			out = append(out, p)
 			return nil
 		}
